@@ -49,15 +49,49 @@ Proof.
   rewrite !map_length, seq_length in L. lia.
 Qed.
 
-Corollary C19_numbering_never_out_of_fuel sc s :
-  resolve_var_name_conflict sc s <> OutOfFuel "resolveVarNameConflict".
+Lemma first_free_mono f vs s n : first_free f vs s n = None -> forall g, g <= f -> first_free g vs s n = None.
+Proof.
+  revert n. induction f as [|f IH]; intros n H g L; [destruct g; [reflexivity|lia]|].
+  destruct g as [|g]; [reflexivity|]. simpl in *.
+  destruct (has_var vs (s ++ itoa n)); [|discriminate]. apply IH; [exact H|lia].
+Qed.
+
+Lemma rename_first_length vs a b : List.length (rename_first vs a b) = List.length vs.
+Proof. induction vs as [|v vs IH]; simpl; [reflexivity|]. destruct (String.eqb (v_name v) a); simpl; auto. Qed.
+
+(* from 2 the search also succeeds within the same fuel: at most |vs| names are taken *)
+Lemma first_free_from_two vs s :
+  first_free (S (S (List.length vs))) vs s 2 <> None.
+Proof.
+  intros H.
+  assert (INCL : incl (map (fun k => s ++ itoa k) (seq 2 (S (S (List.length vs))))) (map v_name vs)).
+  { intros x I. apply in_map_iff in I. destruct I as [k [<- I]]. apply in_seq in I.
+    apply (first_free_none _ _ _ _ H). lia. }
+  pose proof (NoDup_incl_length (candidates_nodup s 2 _) INCL) as L.
+  rewrite !map_length, seq_length in L. lia.
+Qed.
+
+(* the numbering never runs out of fuel and -- since the repair of D22 -- never crashes *)
+Theorem C19_numbering_total sc s :
+  exists n sc', resolve_var_name_conflict sc s = Ok (s ++ itoa n, sc').
 Proof.
   unfold resolve_var_name_conflict.
   destruct (first_free _ (sc_vars sc) s 1) as [[|[|k]]|] eqn:E.
-  - discriminate.
-  - destruct (search_var (sc_vars sc) s); discriminate.
-  - discriminate.
+  - eexists _, _. reflexivity.
+  - set (vs1 := if has_var (sc_vars sc) s then _ else _).
+    assert (LEN : List.length vs1 = List.length (sc_vars sc)).
+    { unfold vs1. destruct (has_var (sc_vars sc) s); [apply rename_first_length|reflexivity]. }
+    destruct (first_free _ vs1 s 2) as [n|] eqn:E2; [eexists _, _; reflexivity|].
+    exfalso. rewrite <- LEN in E2. exact (first_free_from_two _ _ E2).
+  - eexists _, _. reflexivity.
   - exfalso. exact (C19_numbering_terminates _ _ E).
+Qed.
+
+Corollary C19_numbering_never_out_of_fuel sc s :
+  resolve_var_name_conflict sc s <> OutOfFuel "resolveVarNameConflict" /\
+  forall site, resolve_var_name_conflict sc s <> Crash site.
+Proof.
+  destruct (C19_numbering_total sc s) as (n & sc' & E). rewrite E. split; [discriminate|intros; discriminate].
 Qed.
 
 (* ---- alias resolution can diverge (finding D12): a proof of non-termination ---- *)
